@@ -108,6 +108,30 @@ theorem ident_accept_derived (derived : List String) (s r : String)
     rw [← this]; simpa using hc
   · rw [if_neg hc] at h; cases h
 
+/-- **an accepted identityref value is derived from every base of the type**, and a type has at least one -/
+theorem ident_accept_every_base (closures : List (List String)) (s r : String)
+    (h : identByBases closures s = some r) : closures ≠ [] ∧ ∀ c ∈ closures, r ∈ c := by
+  simp only [identByBases, identOfBases] at h
+  by_cases hc : (!closures.isEmpty && closures.all (·.contains (stripPrefix s))) = true
+  · rw [if_pos hc] at h
+    simp only [Bool.and_eq_true, Bool.not_eq_eq_eq_not, Bool.not_true, List.isEmpty_eq_false_iff, List.all_eq_true] at hc
+    have hr : stripPrefix s = r := by simpa using h
+    subst hr
+    exact ⟨hc.1, fun c hcm => by simpa using hc.2 c hcm⟩
+  · rw [if_neg hc] at h; cases h
+
+/-- a name that one of the bases does not derive is refused, whatever the other bases say -/
+theorem ident_refuse_missing_base (pre post : List (List String)) (c : List String) (s : String)
+    (h : c.contains (stripPrefix s) = false) : identByBases (pre ++ c :: post) s = none := by
+  simp only [identByBases, identOfBases]
+  have : (pre ++ c :: post).all (·.contains (stripPrefix s)) = false := by
+    simp only [List.all_append, List.all_cons, h, Bool.false_and, Bool.and_false]
+  rw [this]
+  simp
+
+example : identOfBases [["d1", "d12", "dd"], ["d2", "d12", "dd"]] "d12" = some "d12" ∧
+    identOfBases [["d1", "d12", "dd"], ["d2", "d12", "dd"]] "d1" = none ∧ identOfBases [["d1", "d12"]] "base1" = none := by decide
+
 theorem union_accept_member {α β : Type} (members : List (α → Option β)) (v : α) (r : β)
     (h : unionFirst members v = some r) : ∃ m ∈ members, m v = some r := by
   unfold unionFirst at h
